@@ -10,7 +10,7 @@ use p2panda_core::Hash;
 use p2panda_store::orderer::OrdererStore;
 use p2panda_store::{SqliteStore, Transaction};
 use p2panda_stream::Processor;
-use p2panda_stream::orderer::{CausalOrderer, Orderer};
+use p2panda_stream::orderer::Orderer;
 use simcore::stepexec::{self, Policy, Step, StepExec};
 use simcore::{ctx, ev};
 use simworld::gated::Gate;
@@ -157,54 +157,6 @@ pub fn check_liveness(dag: &Dag, delivered: &BTreeSet<usize>, outputs: &[usize],
 }
 
 // ------------------------------------------------------------------------------------------------
-// Level A: CausalOrderer directly over SqliteStore (sequential)
-// ------------------------------------------------------------------------------------------------
-
-pub async fn run_level_a(dag: &Dag, order: &[usize], drain_each: bool) -> Vec<usize> {
-    let store = sqlite_memory().await;
-    let co: CausalOrderer<Hash, SqliteStore> = CausalOrderer::new(store.clone());
-    let mut outputs = vec![];
-    let mut stop = false;
-    for (step, i) in order.iter().enumerate() {
-        let permit = store.begin().await.expect("begin");
-        let r = co.process(dag.items[*i].id(), &dag.deps[*i]).await;
-        match r {
-            Ok(()) => store.commit(permit).await.expect("commit"),
-            Err(e) => {
-                simcore::violation("store-error", "CausalOrderer::process", e.to_string());
-                let _ = store.rollback(permit).await;
-                stop = true;
-            }
-        }
-        ev!("deliver[{step}] item {i}");
-        if stop {
-            break;
-        }
-        if drain_each || step + 1 == order.len() {
-            loop {
-                let permit = store.begin().await.expect("begin");
-                let r = co.next().await;
-                store.commit(permit).await.expect("commit");
-                match r {
-                    Ok(Some(h)) => {
-                        let idx = dag.index_of(&h).unwrap_or(usize::MAX);
-                        ev!("   released item {idx}");
-                        outputs.push(idx);
-                    }
-                    Ok(None) => break,
-                    Err(e) => {
-                        simcore::violation("store-error", "CausalOrderer::next", e.to_string());
-                        break;
-                    }
-                }
-            }
-        }
-    }
-    store.pool().close().await;
-    outputs
-}
-
-// ------------------------------------------------------------------------------------------------
 // Level B: the `Orderer` processor over OrdStore<SqliteStore>, `next()` driven as a StepExec
 // activity so that it can be cancelled at chosen points (C12) or when it parks on `notify`.
 // ------------------------------------------------------------------------------------------------
@@ -327,7 +279,7 @@ pub async fn drive_next(b: &LevelB, dag: &Dag) -> NextOutcome {
                 }
                 // Parked on a primitive that only another activity can signal.
                 ex.cancel(act);
-                settle().await;
+                settle(&b.sqlite).await;
                 return NextOutcome::ParkedAndCancelled;
             }
             Ok(Step::Quiescent) => unreachable!(),
@@ -368,10 +320,12 @@ pub async fn drive_process(b: &LevelB, item: DagItem) -> Result<(), String> {
     out.borrow_mut().take().unwrap_or(Err("no result".into()))
 }
 
-/// Give runtime-spawned helpers (permit rollback, sqlx return_to_pool) time to finish.
-pub async fn settle() {
-    for _ in 0..50 {
-        tokio::task::yield_now().await;
+/// Barrier: returns once every dropped permit's rollback has finished and the transaction
+/// semaphore is free again (begin() queues FIFO behind it), so the next harness-level operation
+/// starts from a timing-independent state.
+pub async fn settle(sqlite: &SqliteStore) {
+    if let Ok(p) = sqlite.begin().await {
+        let _ = sqlite.rollback(p).await;
     }
 }
 
@@ -388,6 +342,28 @@ pub async fn drain(b: &LevelB, dag: &Dag, outputs: &mut Vec<usize>) -> Result<()
             NextOutcome::Stall => return Err("next() stalled in a store call (watchdog)".into()),
         }
     }
+}
+
+/// Deliver `order` through `Orderer::process`, draining `next()` after every delivery or only at
+/// the end. Fresh store per call.
+pub async fn run_seq(dag: &Dag, order: &[usize], drain_each: bool) -> Vec<usize> {
+    let b = setup_level_b(dag).await;
+    let mut outputs = vec![];
+    for (step, i) in order.iter().enumerate() {
+        ev!("deliver[{step}] item {i}");
+        if let Err(e) = drive_process(&b, dag.items[*i].clone()).await {
+            simcore::violation("process-failed", "Orderer::process", e);
+            break;
+        }
+        if drain_each || step + 1 == order.len() {
+            if let Err(e) = drain(&b, dag, &mut outputs).await {
+                simcore::violation("next-failed", "Orderer::next", e);
+                break;
+            }
+        }
+    }
+    b.sqlite.pool().close().await;
+    outputs
 }
 
 pub fn dedupe_keep_first(v: &[usize]) -> Vec<usize> {
